@@ -142,7 +142,12 @@ class Rig(object):
             stamper.change(float(t))
             try:
                 if msg is not None:
-                    ex.send(msg)
+                    # both public ways to move on to a new message: send(), or transmit() of the new packet
+                    if (i + len(msg)) % 3 == 0:
+                        ex.transmit(msg)
+                        ctx.hit("new_message_by_transmit")
+                    else:
+                        ex.send(msg)
                     latest = msg
                     model_sent.append((t, msg))
                     ctx.hit("new_message_sent")
